@@ -6,6 +6,14 @@ func extraEngineFor(prop string, t *testing.T) Engine {
 	switch prop {
 	case "C07":
 		return linEngine{t}
+	case "C05":
+		return multiEngine{engines: map[string]Engine{"compact": compactEngine{t}, "crash": crashEngine{}}, order: []string{"compact", "crash"}, weights: []int{3, 1}}
+	case "C10":
+		return chaosEngine{t}
+	case "C11":
+		return multiEngine{engines: map[string]Engine{"scan": scanEngine{t}, "seq": seqEngine{}}, order: []string{"scan", "seq"}, weights: []int{3, 1}}
+	case "C12":
+		return backupEngine{t}
 	}
 	return nil
 }
